@@ -436,10 +436,10 @@ pub fn run(args: &Args) -> i32 {
     let shapes = name_shapes();
     ctx.rule = format!(
         "E-PROD with a real file system (tmpfs sandbox per case: canary/, sibling objects and same-named decoys around a target four levels deep). One-entry archives: {} names (every sequence of 1..3 components over {{a, b, ., .., empty}} with/without leading and trailing '/', absolute names aimed at the canary, climbing names, backslash, NUL, drive/UNC-like, 40-level nesting) \
-         x {{file, directory-typed, symlink-typed}} x content {{empty, 5 bytes}}; every 12-bit mode 0..=0o7777 on a file, 0o700..=0o777 and all special-bit combinations on a directory; two-entry archives over a {}-name alphabet squared x kind pairs (duplicates, file/directory conflicts, implied parents); three-entry archives over 8 names cubed; one five-entry tree (70 001-byte, 300-byte, 5-byte and empty files, explicit and implied directories) in all 120 entry orders x 8 archive layouts (plain, every method, data descriptors, prepended data, DOS made-by, forced ZIP64, reversed directory with gaps, written by the crate's own writer). Both ZipArchive::extract and ZipStreamReader::extract. \
+         x {{file, directory-typed, symlink-typed}} x content {{empty, 5 bytes}}; every 12-bit mode 0..=0o7777 on a file, 0o700..=0o777 and all special-bit combinations on a directory; two-entry archives over a {}-name alphabet squared x kind pairs (duplicates, file/directory conflicts, implied parents); three-entry archives over 11 names cubed (incl. names that are string prefixes but not path prefixes of one another); one five-entry tree (70 001-byte, 300-byte, 5-byte and empty files, explicit and implied directories) in all 120 entry orders x 8 archive layouts (plain, every method, data descriptors, prepended data, DOS made-by, forced ZIP64, reversed directory with gaps, written by the crate's own writer). Both ZipArchive::extract and ZipStreamReader::extract. \
          Oracle: (1) a recursive listing (type, size, mode, content hash) of everything in the sandbox outside the target is unchanged; (2) an unsafe name (lexical model) makes the call fail; (3) safe, mutually consistent archives extract successfully to exactly the model tree with byte-identical contents and the recorded permission bits. distinct_nontrivial = distinct (archive, extractor) pairs (hash set).",
         shapes.len(),
-        if thorough { 40 } else { 24 }
+        if thorough { 44 } else { 28 }
     );
     ctx.assume("Unix host, tmpfs scratch under /dev/shm (fallback /var/tmp), outside /repo and /verif, removed afterwards; run as any uid (directory modes kept >= 0700 in positive cases)");
     ctx.uncovered("how symlink-typed entries materialise (checked for confinement only); partial output after an error; safe-but-dotted names (confinement only)");
@@ -478,8 +478,8 @@ pub fn run(args: &Args) -> i32 {
     ctx.stats.merge(s);
     ctx.bound("permission_values", json!("files: all 4096 twelve-bit modes; directories: 0o700..=0o777 and 0o755 with every set-uid/gid/sticky combination"));
     // two-entry archives
-    let m = if thorough { 40 } else { 24 };
-    let mut red: Vec<String> = ["a", "b", "a/", "a/b", "a/b/", "b/a", "a/a", "../a", "/a", "a/../b", "a/..", "", "/", ".", "a/b/c", "a/b/c/", "b/", "{CANARY}/pwned", "../sibling/s", "a\0", "c", "a//b", "./a", "../../a"]
+    let m = if thorough { 44 } else { 28 };
+    let mut red: Vec<String> = ["a", "b", "a/", "a/b", "a/b/", "b/a", "a/a", "../a", "/a", "a/../b", "a/..", "", "/", ".", "a/b/c", "a/b/c/", "b/", "{CANARY}/pwned", "../sibling/s", "a\0", "c", "a//b", "./a", "../../a", "ab/c", "abc/d", "ab.txt", "abc/"]
         .iter()
         .map(|s| s.to_string())
         .collect();
@@ -503,13 +503,15 @@ pub fn run(args: &Args) -> i32 {
     });
     ctx.stats.merge(s);
     // three-entry archives
-    let r8: Vec<String> = ["a", "a/", "a/b", "b/", "b/c/d", "../x", "c", "a/b/"].iter().map(|s| s.to_string()).collect();
+    // (names that are string prefixes of one another without being path prefixes: "ab/y" vs "abc/x" vs "ab.txt")
+    let r8: Vec<String> = ["a", "a/", "a/b", "b/", "b/c/d", "../x", "c", "a/b/", "ab/y", "abc/x", "ab.txt"].iter().map(|s| s.to_string()).collect();
     let r8_r = &r8;
-    let s = par_for(512 * 2, 8, |t, st| {
+    let nn = r8.len();
+    let s = par_for((nn * nn * nn * 2) as u64, 8, |t, st| {
         let stream = t % 2 == 1;
         let j = (t / 2) as usize;
         let mk = |n: &String, k: usize| En { name: n.clone(), kind: if n.ends_with('/') { 1 } else { 0 }, content: vec![b'0' + k as u8; k + 1], perm: Some(if n.ends_with('/') { 0o711 } else { 0o604 }) };
-        let e = vec![mk(&r8_r[j / 64], 0), mk(&r8_r[(j / 8) % 8], 1), mk(&r8_r[j % 8], 2)];
+        let e = vec![mk(&r8_r[j / (nn * nn)], 0), mk(&r8_r[(j / nn) % nn], 1), mk(&r8_r[j % nn], 2)];
         check_case(&e, stream, base_r, (3 << 40) + t, st, (3 << 40) + t, "three-entries");
     });
     ctx.stats.merge(s);
